@@ -23,7 +23,8 @@ differ between x and y (C03 says they do not exist).
 modes: 'sibling' (x itself, after objects that share its arrays - x * 1, x + 0, x.clone() - were mutated in place
 with operands carrying another mask), 'setitem', 'iadd', 'isub', 'imul', 'itruediv', 'iand', 'ior', 'ixor', and 'derived' (not in-place:
 x0 = x - 2.0 gets a derivative 'h', every cached view of x0 is asked for, y = x0 + 2.0 takes the
-number fast path that clones x0 with its cache; y then carries the extra derivative 'h');
+number fast path that clones x0 with its cache; y then carries the extra derivative 'h'), and 'inplace_num' (the
+same with x0 += 2.0);
 ``modes_for(x)`` lists the ones that apply to x.  ``reach`` returns x itself when the mode cannot be applied."""
 import numpy as np
 
@@ -49,6 +50,8 @@ def modes_for(x):
     m = ['sibling', 'setitem', 'iadd', 'isub']
     if x.is_float() and x.DERIVS_OK and not x.derivs and type(x).__name__ not in ('Matrix3', 'Quaternion'):
         m.append('derived')
+        if not x.item:
+            m.append('inplace_num')
     if x.derivs or type(x).__name__ == 'Matrix3':
         return m        # *= and /= OR the operand's mask into the derivatives' own masks; Matrix3 *= Scalar is unsupported
     if x.is_float():
@@ -81,7 +84,7 @@ def reach(Pm, x, mode, k=0):
         return x
     if y is x:
         return x
-    return y if same_content(Pm, x, y, derivs=(mode != 'derived')) else x
+    return y if same_content(Pm, x, y, derivs=(mode not in ('derived', 'inplace_num'))) else x
 
 
 class _NotApplicable(Exception):
@@ -122,6 +125,14 @@ def _reach(Pm, x, mode, k):
         x0.insert_deriv('h', x0.wod.copy())
         warm(x0)
         return x0 + 2.0
+    if mode == 'inplace_num':
+        # the in-place number fast path (x += 2.) on an object whose derivative-free twin is cached (seeded C04-E)
+        x0 = x - 2.0
+        x0 = x0.copy()
+        x0.insert_deriv('h', x0.wod.copy())
+        warm(x0)
+        x0 += 2.0
+        return x0
     if mode == 'setitem':
         if not shape or size == 0:
             raise _NotApplicable()
